@@ -3,6 +3,7 @@ C18 / C13 along every history: a record whose outbound transitions have been dec
 keeps its status for ever, and is never retried.
 -/
 import OrqModel.Proofs.FrozenUpdate
+import OrqModel.Proofs.NextKeep
 import OrqModel.Properties.Retry
 
 namespace Orq
@@ -85,5 +86,43 @@ theorem C13_retried_attempt_undecided (spec : WfSpec) (parentCtx inputs : Val.Di
     rw [hs] at hs'
     cases hs'
     cases hc
+
+theorem runOp_nk (op : Op) (c : Cond) (hop : op.notRetryEvent) (hd : Dec c) : NK c (runOp E op c) := by
+  cases op with
+  | req s => exact ((requestStatus_nxa s).run c).nk
+  | next => exact ((getNextTasks_nxa E).run c).nk
+  | render => exact ((renderOutput_nxa E).run c).nk
+  | rerun reqs => exact ((requestRerun_nxa E reqs).run c).nk
+  | report k ev =>
+    apply updateTaskStateAux_nk E 3 k ev c hd
+    intro hev
+    subst hev
+    exact hop.elim
+
+theorem runOps_nk (ops : List Op) (c : Cond) (hops : ∀ op ∈ ops, op.notRetryEvent) (hd : Dec c) :
+    NK c (runOps E ops c) := by
+  induction ops generalizing c with
+  | nil => exact NK.refl c
+  | cons op ops ih =>
+    rw [runOps_cons]
+    have hop := hops op List.mem_cons_self
+    exact (runOp_nk E op c hop hd).trans
+      (ih (runOp E op c) (fun o ho => hops o (List.mem_cons_of_mem _ ho)) (Dec.stepW (runOp_decw E op c hop hd) hd))
+
+/-- **C18**: the decisions recorded for a task record never change: once an API call has returned
+    (or raised) with decisions recorded for a record, whatever history follows — reports, late and
+    duplicate reports, control requests, queries, output rendering, reruns — the record's list of
+    decisions is exactly what it was, and so is its status -/
+theorem C18_decisions_never_change (spec : WfSpec) (parentCtx inputs : Val.Dict) (ops1 ops2 : List Op)
+    (h1 : ∀ op ∈ ops1, op.notRetryEvent) (h2 : ∀ op ∈ ops2, op.notRetryEvent) (i : Nat) (r : Rec)
+    (hr : (runOps E ops1 (init E spec parentCtx inputs)).st.sequence[i]? = some r) (hn : r.next ≠ []) :
+    ∃ r', (runOps E ops2 (runOps E ops1 (init E spec parentCtx inputs))).st.sequence[i]? = some r' ∧
+      r'.next = r.next ∧ r'.status = r.status := by
+  obtain ⟨_, hd1⟩ := runOps_decw E ops1 _ h1 (init_dec E spec parentCtx inputs)
+  obtain ⟨r', hr', hnext⟩ := (runOps_nk E ops2 _ h2 hd1).keep i r hr hn
+  obtain ⟨r'', hr'', hstat, _⟩ := C18_decided_records_frozen E spec parentCtx inputs ops1 ops2 h1 h2 i r hr hn
+  rw [hr'] at hr''
+  cases hr''
+  exact ⟨r', hr', hnext, hstat⟩
 
 end Orq
